@@ -256,51 +256,7 @@ theorem valid_implies_convert (s : List Char) (h : validPN upperAscii s = true) 
   · simp only [hc, Bool.false_eq_true, if_false] at h ⊢
     exact validBlock_converts s false h
 
-/-- **Every accepted place notation can be rung**: the generator's constructor succeeds on it. -/
-theorem accepted_notation_can_be_rung (c : Chars) (s pn : List Char) (stage : Nat)
-    (h : placeNotation c s = .ok (stage, pn)) : (mkPN stage pn none none 0 none).isSome := by
-  unfold placeNotation at h
-  split at h
-  · rename_i stagePart pn' _
-    split at h
-    · cases h
-    · split at h
-      · cases h
-      · rename_i st hst
-        split at h
-        · cases h
-        · rename_i hrange
-          split at h
-          · cases h
-          · rename_i hvalid
-            injection h with h
-            injection h with h1 h2
-            subst h2
-            have hv : validPN upperAscii pn' = true := by simpa using hvalid
-            have hconv := valid_implies_convert pn' hv
-            unfold mkPN
-            simp only [startingRow]
-            cases hq : convertPN pn' with
-            | none => rw [hq] at hconv; simp at hconv
-            | some mpn =>
-              simp only []
-              have c14 : convertPN "14".toList = some [[1, 4]] := by decide
-              have c1234 : convertPN "1234".toList = some [[1, 2, 3, 4]] := by decide
-              have hb : (parseCallDict mpn.length (none.getD defaultBob)).isSome := by
-                unfold parseCallDict; apply mapM_isSome; intro a ha
-                simp [defaultBob, Generated.defaultBob] at ha; subst ha; simp only [c14]; rfl
-              have hsg : (parseCallDict mpn.length (none.getD defaultSingle)).isSome := by
-                unfold parseCallDict; apply mapM_isSome; intro a ha
-                simp [defaultSingle, Generated.defaultSingle] at ha; subst ha; simp only [c1234]; rfl
-              cases h1 : parseCallDict mpn.length (none.getD defaultBob) with
-              | none => rw [h1] at hb; simp at hb
-              | some b =>
-                cases h2 : parseCallDict mpn.length (none.getD defaultSingle) with
-                | none => rw [h2] at hsg; simp at hsg
-                | some sg => simp
-  · cases h
-
-/-- … and its stage is one Wheatley has bells for. -/
+/-- An accepted stage is one Wheatley has bells for. -/
 theorem accepted_stage_in_range (c : Chars) (s pn : List Char) (stage : Nat)
     (h : placeNotation c s = .ok (stage, pn)) : 1 ≤ stage ∧ stage ≤ 16 := by
   unfold placeNotation at h
@@ -325,6 +281,52 @@ theorem accepted_stage_in_range (c : Chars) (s pn : List Char) (stage : Nat)
               · exact absurd (decide_eq_true (by exact_mod_cast hlt)) hrange.2
               · exact hge
             constructor <;> omega
+  · cases h
+
+/-- **Every accepted place notation can be rung**: the generator's constructor succeeds on it. -/
+theorem accepted_notation_can_be_rung (c : Chars) (s pn : List Char) (stage : Nat)
+    (h : placeNotation c s = .ok (stage, pn)) : (mkPN stage pn none none 0 none).isSome := by
+  have hr := accepted_stage_in_range c s pn stage h
+  unfold placeNotation at h
+  split at h
+  · rename_i stagePart pn' _
+    split at h
+    · cases h
+    · split at h
+      · cases h
+      · rename_i st hst
+        split at h
+        · cases h
+        · rename_i hrange
+          split at h
+          · cases h
+          · rename_i hvalid
+            injection h with h
+            injection h with h1 h2
+            subst h2
+            have hv : validPN upperAscii pn' = true := by simpa using hvalid
+            have hconv := valid_implies_convert pn' hv
+            unfold mkPN
+            have hle : ¬ maxBell < stage := by simp only [maxBell]; omega
+            simp only [startingRow, hle, if_false]
+            cases hq : convertPN pn' with
+            | none => rw [hq] at hconv; simp at hconv
+            | some mpn =>
+              simp only []
+              have c14 : convertPN "14".toList = some [[1, 4]] := by decide
+              have c1234 : convertPN "1234".toList = some [[1, 2, 3, 4]] := by decide
+              have hb : (parseCallDict mpn.length (none.getD defaultBob)).isSome := by
+                unfold parseCallDict; apply mapM_isSome; intro a ha
+                simp [defaultBob, Generated.defaultBob] at ha; subst ha; simp only [c14]; rfl
+              have hsg : (parseCallDict mpn.length (none.getD defaultSingle)).isSome := by
+                unfold parseCallDict; apply mapM_isSome; intro a ha
+                simp [defaultSingle, Generated.defaultSingle] at ha; subst ha; simp only [c1234]; rfl
+              cases h1 : parseCallDict mpn.length (none.getD defaultBob) with
+              | none => rw [h1] at hb; simp at hb
+              | some b =>
+                cases h2 : parseCallDict mpn.length (none.getD defaultSingle) with
+                | none => rw [h2] at hsg; simp at hsg
+                | some sg => simp
   · cases h
 
 /-- **Every accepted call definition can be rung**: each of its notations converts. -/
